@@ -117,6 +117,10 @@ class EngineListener:
         view_same = bool(np.array_equal(before, after))
         self.close_exec()
         top = int(self.solver.stacks_top[0])
+        self.exec_seq = getattr(self, "exec_seq", 0) + 1
+        if not hasattr(self, "last_exec"):
+            self.last_exec = {}
+        self.last_exec[k] = (self.exec_seq, before.tobytes())
         self.cur_exec = {
             "k": k,
             "status": int(status),
@@ -243,8 +247,7 @@ class EngineListener:
         premise is OBSERVED, otherwise the pass is tallied as 'premise not met' and gives no verdict), the result must
         be the greatest common fixpoint of the exact operators, and the pass fails iff that fixpoint is empty."""
         if not self.exec_premise_ok:
-            self.probes["gfp_premise_not_met"] += 1
-            return
+            self.probes["gfp_some_execution_not_exact"] += 1  # attribution only: the comparison below still decides
         ebox = [[int(a), int(b)] for a, b in entry]
         if any(a > b for a, b in ebox):
             return
@@ -422,6 +425,7 @@ class EngineListener:
             a[2 + A_QUEUE][:] = True
             st = quiet_bc(a[2:])
             refuted = None if st is None else st == PROBLEM_INCONSISTENT
+        seq0 = getattr(self, "exec_seq", 0)
         self.in_shave_bound += 1
         try:
             has_shaved = orig(*args)
@@ -451,6 +455,11 @@ class EngineListener:
                 need = (EV_MIN if bound == 0 else EV_MAX) | (EV_GROUND if lo == hi else 0)
                 for p in range(len(queue)):
                     if ne[top][p] and (int(triggers[dom_idx, p]) & need) and not queue[p]:
+                        # fine if the constraint has already been executed on the final domains inside the probe
+                        le = getattr(self, "last_exec", {}).get(p)
+                        box_now = [[int(a), int(b)] for a, b in stack[top]]
+                        if le is not None and le[0] > seq0 and le[1] == self.views(p, box_now).tobytes():
+                            continue
                         self.viol(
                             "C10",
                             "shaved-bound-not-announced",
